@@ -273,6 +273,13 @@ func vsoProbe(c vsoCase, out *vsoOut, followBound time.Duration) error {
 		_, fu["after"] = vsoPrinter(obs, pb)
 	}
 	out.emit(fu)
+	// drop the counter slice: handlers wedged on the leaked lock keep the observer (and up to 1 GB of counters) reachable
+	// for the rest of the process.  Nothing of this rig is looked at after this point.
+	locked := obs.streamGrowLock.TryLock()
+	obs.streamActive = nil
+	if locked {
+		obs.streamGrowLock.Unlock()
+	}
 	return nil
 }
 
